@@ -94,6 +94,21 @@ mut("C14", "default_value_max_assert_inclusive_only", UD, "                if is
 mut("C14", "override_keeps_memo_and_cache", UD, "        if category in self.categories_to_quantity_types:\n            # Replacing a category: quantities already interned for it embed the previous\n            # category info (quantity type, limits, conversion), so they can't be handed out again.\n            self.quantities_cache.clear()\n", "")
 mut("C14", "getvalidunits_fallback_reverted", UD, "                if (\n                    base_category_info is not None\n                    and base_category_info.quantity_type == quantity_type\n                ):\n                    return self.GetValidUnits(quantity_type)", "                return self.GetValidUnits(quantity_type)")
 
+# ---------------------------------------------------------------------------------------- C15
+mut("C15", "revert_getvalidunits_copy", AV, "        valid_units = list(self.GetUnitDatabase().GetValidUnits(self.GetCategory()))", "        valid_units = self.GetUnitDatabase().GetValidUnits(self.GetCategory())")
+mut("C15", "revert_memo_invalidation_addunit", UD, "        # A unit looked up before being registered was memoized as invalid for its categories.\n        self._category_unit_valid.clear()\n", "")
+mut("C15", "revert_memo_invalidation_addcategory", UD, "        # Verdicts memoized before this registration (including negative ones) may now be wrong.\n        self._category_unit_valid.clear()\n", "")
+mut("C15", "revert_cache_invalidation_override", UD, "            self.quantities_cache.clear()\n        # Verdicts memoized", "            pass\n        # Verdicts memoized")
+mut("C15", "getvalidunits_memoises_type_units_into_category", UD, "            # the valid units have not been specified for the given category (so, let's return\n            # the units for the quantity type)\n            return self.GetUnits(quantity_type)", "            category_info.valid_units = self.GetUnits(quantity_type)\n            return category_info.valid_units")
+mut("C15", "clear_keeps_quantities_cache", UD, "        self.unit_to_unit_info.clear()\n        self.quantities_cache.clear()\n        self._category_unit_valid.clear()", "        self.unit_to_unit_info.clear()\n        self._category_unit_valid.clear()")
+mut("C15", "clear_keeps_memo", UD, "        self.unit_to_unit_info.clear()\n        self.quantities_cache.clear()\n        self._category_unit_valid.clear()", "        self.unit_to_unit_info.clear()\n        self.quantities_cache.clear()")
+mut("C15", "default_category_memoised_per_unit", UD, "        try:\n            unit_info = self.unit_to_unit_info[unit]\n        except KeyError:\n            is_legacy, fixed_unit = FixUnitIfIsLegacy(unit)\n            if not is_legacy:\n                return None\n            unit_info = self.unit_to_unit_info[fixed_unit]\n        category = unit_info.default_category", "        memo = self.__dict__.setdefault('_default_category_memo', {})\n        if unit in memo:\n            return memo[unit]\n        memo[unit] = result = self._GetDefaultCategoryUncached(unit)\n        return result\n\n    def _GetDefaultCategoryUncached(self, unit: str) -> Optional[str]:\n        try:\n            unit_info = self.unit_to_unit_info[unit]\n        except KeyError:\n            is_legacy, fixed_unit = FixUnitIfIsLegacy(unit)\n            if not is_legacy:\n                return None\n            unit_info = self.unit_to_unit_info[fixed_unit]\n        category = unit_info.default_category")
+mut("C15", "getcategoryinfo_autocreates_missing_category", UD, "        try:\n            return self.categories_to_quantity_types[category]\n        except KeyError:\n            categories_str = \"\"", "        try:\n            return self.categories_to_quantity_types[category]\n        except KeyError:\n            if category in self.quantity_types:\n                return self.AddCategory(category, category)\n            categories_str = \"\"")
+mut("C15", "memo_keyed_by_unit_only", UD, "        key = (category, unit)\n        try:\n            # i.e.: if not valid", "        key = (self.categories_to_quantity_types[category].quantity_type if category in self.categories_to_quantity_types else category, unit)\n        try:\n            # i.e.: if not valid")
+mut("C15", "unit_names_cached_per_type", UD, "        return [x.name for x in self.GetInfos(quantity_type)]", "        memo = self.__dict__.setdefault('_names_memo', {})\n        if quantity_type not in memo:\n            memo[quantity_type] = [x.name for x in self.GetInfos(quantity_type)]\n        return memo[quantity_type]")
+mut("C15", "alias_cached_across_override", QT, "            # Cache it with None category too.\n            quantities_cache[key] = quantity\n            return quantity", "            # Cache it with None category too.\n            quantities_cache[key] = quantity\n            unit_database.__dict__.setdefault('_alias', {})[key] = quantity\n            return quantity")
+mut("C15", "obtainquantity_consults_stale_alias_table", QT, "    key = (category, unit, unknown_unit_caption)  # type:ignore[assignment]\n    try:\n        return quantities_cache[key]\n    except KeyError:\n        pass  # Just go on with the regular flow.", "    key = (category, unit, unknown_unit_caption)  # type:ignore[assignment]\n    try:\n        return quantities_cache[key]\n    except KeyError:\n        pass  # Just go on with the regular flow.\n    _stale = unit_database.__dict__.setdefault('_by_unit', {})\n    if category is None and isinstance(unit, str) and unknown_unit_caption is None:\n        if unit in _stale:\n            return _stale[unit]\n        _q = Quantity(unit_database.GetDefaultCategory(unit) or '', unit) if unit_database.GetDefaultCategory(unit) else None\n        if _q is not None:\n            _stale[unit] = _q\n            return _q")
+
 
 def run_one(prop, name, file, old, new, runs, suite):
     d = tempfile.mkdtemp(prefix="barril-mut-", dir="/dev/shm")
